@@ -74,7 +74,7 @@ def gen_cases(tier, rng):
                     h += [["do", ["sched", ["now"], 99999, []]], ["start"] if drive == "start" else ["advby", U]]
                     out.append((world, rng.choice([0, 0, U, 12345]) if mode != "flat_abs" else 0, h,
                                 f"{mode}/{drive}", n))
-    nr = 40 if tier == "quick" else 1500
+    nr = 40 if tier == "quick" else 400
     for _ in range(nr):
         world = rng.choice(vt.WORLDS)
         unit = rng.choice([U, 1000, 1])
